@@ -33,17 +33,20 @@ BOUND = {
 BOUND = {k: v + "; plus: " + '8 custom columns mostly named like computed attributes (bind::nodeset, body::ref, ...) on every row of L(4,3) / L(5,3), valued with another node path or a path of nothing; every question row bound exactly once; object API: every question moved to every other section with add_child between two to_xml() calls (L(4,3) quick / L(5,3) thorough), also renamed to a name already present in the target section' for k, v in BOUND.items()}
 NAMES = ["a", "b", "c", "d", "e", "f", "g"]
 KINDS = ["eq", "case", "count", "other", "meta"]
-CHOICES = [{"list_name": "c", "name": "x", "label": "X"}, {"list_name": "c", "name": "y", "label": "Y"}]
+CHOICES = [{"list_name": "ch9", "name": "x", "label": "X"}, {"list_name": "ch9", "name": "y", "label": "Y"}]
 
 QT = [
     ("text", {}),
-    ("select_one c or_other", {}),
+    ("select_one ch9 or_other", {}),
     ("calculate", {"calculation": "1+1", "trigger": "TRIG"}),
     ("text", {"default": "now()"}),
     ("start-geopoint", {}),
-    ("select_multiple c or_other", {"default": "x"}),
+    ("select_multiple ch9 or_other", {"default": "x"}),
     ("integer", {"default": "3"}),
     ("background-geopoint", {"trigger": "TRIG"}),
+    # rows that declare an external instance and have no node of their own: logic cells / defaults on them bind nothing
+    ("xml-external", {"relevant": "1 = 1", "default": "now()", "required": "yes"}),
+    ("csv-external", {"calculation": "1 + 1", "read_only": "yes", "default": "3"}),
 ]
 
 
@@ -118,11 +121,11 @@ def expand(block, tier):
                         yield {"f": fj, "feat": feat, "st": 0, "dev": None, "move": [nd_["i"], tgt], "rename_to": clash[0]}
         return
     if block[0] == "default":
-        for feat in range(6):
+        for feat in range(len(QT)):
             for st in (0, 1):
                 yield {"f": fj, "feat": feat, "st": st, "dev": None}
     else:
-        feats = range(0, 6, 2) if tier == "quick" else range(6)
+        feats = range(0, len(QT), 2) if tier == "quick" else range(len(QT))
         for feat in feats:
             for i in range(n):
                 for j in range(n):
@@ -159,9 +162,9 @@ def build(case):
             if t[0] == "q":
                 ty, extra = QT[(i + feat) % len(QT)]
                 r = {"type": ty, "name": nm, **extra}
-                if ty not in ("calculate", "start-geopoint", "background-geopoint"):
+                if ty not in ("calculate", "start-geopoint", "background-geopoint", "xml-external", "csv-external"):
                     r["label"] = nm
-                info[i] = {"other": "or_other" in ty}
+                info[i] = {"other": "or_other" in ty, "external": ty.endswith("-external")}
                 rows.append(r)
             else:
                 kind = "group" if t[0] == "g" else "repeat"
@@ -439,6 +442,10 @@ def check_one(case):
         for nd in nodes:
             if nd["kind"] == "q":
                 px = "/" + "/".join(nd["path"])
+                if info.get(nd["i"], {}).get("external"):
+                    if bm.get(px) or obs.resolves(px):
+                        viol.append(("external-instance-row-has-node-or-bind", px))
+                    continue
                 if len(bm.get(px, ())) != 1:
                     viol.append(("question-row-bind-count" + (f":col={case['col'][1]}" if case.get("col") else ""), f"{px}: {len(bm.get(px, ()))} binds"))
     helpers = any(v.get("count") or v.get("other") for v in info.values()) or bool(obs.template_paths)
